@@ -259,8 +259,23 @@ class Real:
     def run(self, coro):
         return self.loop.run_until_complete(coro)
 
-    def cel(self, v):
-        return self.celpy.json_to_cel(copy.deepcopy(v))
+    def cel(self, v, memo=None):
+        """plain JSON -> CEL value.  With a `memo` (one per case), structurally equal non-empty maps / lists become
+        the SAME Python object wherever they occur (in the base, in inputs, across both): value semantics cannot
+        tell, code that updates a document in place can."""
+        if memo is None:
+            return self.celpy.json_to_cel(copy.deepcopy(v))
+        ct = self.celtypes
+
+        def conv(x):
+            if isinstance(x, (dict, list)) and x:
+                key = json.dumps(x, sort_keys=True)
+                if key not in memo:
+                    memo[key] = (ct.MapType({ct.StringType(k): conv(y) for k, y in x.items()}) if isinstance(x, dict)
+                                 else ct.ListType([conv(y) for y in x]))
+                return memo[key]
+            return self.celpy.json_to_cel(copy.deepcopy(x))
+        return conv(v)
 
     def reset(self):
         self.cache._reset_cache()
@@ -409,9 +424,14 @@ def resolve_pairs(pairs, env):
     return [[k, resolve_fn(v, env)] for k, v in pairs]
 
 
-def act(R, env):
+def act(R, env, memo=None):
     """activation as koreo builds it: plain-str root names, CEL values"""
-    return {k: R.cel(v) for k, v in env.items()}
+    return {k: R.cel(v, memo) for k, v in env.items()}
+
+
+def memo_of(case):
+    """a fresh sharing table when the case asks for shared objects, else None (all objects distinct)"""
+    return {} if case.get("share") else None
 
 
 # ---- level 1: prepare_overlay_expression + evaluate_overlay ------------------
@@ -433,8 +453,9 @@ def _run_ov(R, case):
     if isinstance(ov, R.result.PermFail):
         return {"prepared": "PermFail"}
     idx, vals = R.prepare._overlay_indexer(spec=copy.deepcopy(spec), base=0)
-    inputs = act(R, case["env"])
-    base = R.cel(case["base"])
+    memo = memo_of(case)
+    inputs = act(R, case["env"], memo)
+    base = R.cel(case["base"], memo)
     mon = Monitor()
     mon.watch("inputs", inputs)
     mon.watch("base", base)
@@ -481,7 +502,8 @@ def coq_ov(case, got):
 
 def run_deep(case):
     R = real()
-    res, ov = R.cel(case["resource"]), R.cel(case["overlay"])
+    memo = memo_of(case)
+    res, ov = R.cel(case["resource"], memo), R.cel(case["overlay"], memo)
     mon = Monitor()
     mon.watch("resource", res)
     mon.watch("overlay", ov)
@@ -551,8 +573,9 @@ def _run_vf(R, case):
     vf = prepare_vf(R, "c12-vf", case["f"])
     if not isinstance(vf, R.ValueFunction):
         return {"prepared": outcome(vf)}
-    inputs = R.cel(case["inputs"]) if case["inputs"] is not None else None
-    vb = R.cel(case["value_base"]) if case["value_base"] is not None else None
+    memo = memo_of(case)
+    inputs = R.cel(case["inputs"], memo) if case["inputs"] is not None else None
+    vb = R.cel(case["value_base"], memo) if case["value_base"] is not None else None
     mon = Monitor()
     mon.watch("inputs", inputs)
     mon.watch("value_base", vb)
@@ -861,7 +884,7 @@ def _run_rf(R, case):
         return {"prepared": ["overlays", outcome(cfg.overlays)]}
 
     def fresh_inputs():
-        return act(R, case["env"])
+        return act(R, case["env"], memo_of(case))
 
     def spec_changes():
         out = []
@@ -917,16 +940,32 @@ def _run_rf(R, case):
     # level 3: the whole reconcile_resource_function against an in-memory API -> POST body
     if case.get("template_none"):
         return got          # the helper was driven with resource_template=None; reconcile would use the real one
-    api = new_api()
-    try:
-        r = R.run(R.rfr.reconcile_resource_function(api=api, location="c12", function=rf,
-                                                    owner=(case["namespace"], {"uid": "uid-1"}),
-                                                    inputs=R.cel(case["env"]["inputs"])))
-        posts = api_posts(api)
-        got["reconcile"] = {"outcome": outcome(r.outcome)[0], "posts": len(posts),
-                            "target": last_applied(posts[0]) if posts else None}
-    except Exception as e:  # noqa: BLE001
-        got["reconcile"] = {"outcome": "Raised:" + type(e).__name__, "posts": 0, "target": None}
+    # Two whole reconciles (absent object -> create path, with ownership when `owned`) for two different owners,
+    # each against an empty cluster, with the cached template / functions under the snapshot monitor.
+    mon3 = Monitor()
+    mon3.watch("prepared function", rf, _function_view)
+    for name, t in templates.items():
+        mon3.watch(f"cached ResourceTemplate {name}", t, lambda x: x.template)
+    for i, vf in vfs.items():
+        mon3.watch(f"cached ValueFunction {i}", vf, vf_view)
+    runs = []
+    for uid in ("uid-1", "uid-2"):
+        api = new_api()
+        owner = (case["namespace"], {"apiVersion": "v1", "kind": "Owner", "name": "o-" + uid, "uid": uid,
+                                     "blockOwnerDeletion": True, "controller": False})
+        inp = R.cel(case["env"]["inputs"], memo_of(case))
+        mon3.watch(f"inputs of reconcile {uid}", inp)
+        try:
+            r = R.run(R.rfr.reconcile_resource_function(api=api, location="c12", function=rf, owner=owner, inputs=inp))
+            posts = api_posts(api)
+            runs.append({"outcome": outcome(r.outcome)[0], "posts": len(posts),
+                         "target": last_applied(posts[0]) if posts else None,
+                         "body": posts[0] if posts else None})
+        except Exception as e:  # noqa: BLE001
+            runs.append({"outcome": "Raised:" + type(e).__name__, "posts": 0, "target": None, "body": None})
+    got["reconcile"] = runs[0]
+    got["reconcile2"] = runs[1]
+    got["reconcile_changed"] = mon3.changed() + spec_changes()
     return got
 
 
@@ -1028,7 +1067,20 @@ def oracle_rf(case, got):
     if o.get("recorded") is not None and not any(same(o["recorded"], w[2]) for w in wants):
         return ("rf: last-applied annotation of the POST body is not the reference merge",
                 "the target recorded in the created object differs from the reference", wants[0][2])
-    rec = got.get("reconcile")
+    if got.get("reconcile_changed"):
+        kinds = sorted({" ".join(c.split(" ")[:2]) if c.startswith(("cached", "prepared", "inputs")) else c
+                        for c in got["reconcile_changed"]})
+        return ("purity: reconcile_resource_function modified " + "/".join(kinds),
+                "creating the object through reconcile_resource_function modified " + ", ".join(got["reconcile_changed"]), None)
+    rec, rec2 = got.get("reconcile"), got.get("reconcile2")
+    if rec is not None and rec2 is not None and rec["posts"] == 1:
+        # the same function, equal inputs, another owner: the created object may differ in the owner only
+        def norm(x):
+            return json.loads(json.dumps(x).replace("uid-2", "uid-1"))
+        if rec2["posts"] != 1 or norm(rec2["body"]) != norm(rec["body"]):
+            return ("purity: a second reconcile with equal inputs (another owner) creates a different object",
+                    "two reconciles of the same function with equal inputs for two owners created objects that differ in "
+                    "more than the owner", norm(rec["body"]))
     if rec is not None:
         # an exception leaving reconcile (e.g. metadata.annotations overlaid with a non-map makes
         # _prepare_for_api raise TypeError) is outside C12: counted in the distribution, not judged here
@@ -1290,13 +1342,69 @@ def shape_cases(maxn):
                 yield {"kind": "ov", "base": base, "spec": pairs, "env": {"inputs": {}}}
 
 
+def map_paths(v, prefix=()):
+    """paths to non-empty map values"""
+    out = []
+    if isinstance(v, dict):
+        if v and prefix:
+            out.append(prefix)
+        for k, x in v.items():
+            out += map_paths(x, prefix + (k,))
+    return out
+
+
+def dup_submap(rng, base):
+    """copy one non-empty sub-map of `base` to one or two other places of `base` (equal VALUES at different paths;
+    with case["share"] they are also the same OBJECT)"""
+    ps = map_paths(base)
+    if not ps:
+        base[rng.choice(KEYS)] = g_nested(rng, 1)
+        ps = map_paths(base)
+    src = rng.choice(ps)
+    v = base
+    for k in src:
+        v = v[k]
+    for _ in range(rng.choice([1, 1, 2])):
+        homes = [()] + [p for p in map_paths(base) if p[:len(src)] != src]
+        home = rng.choice(homes)
+        node = base
+        for k in home:
+            node = node[k]
+        node[rng.choice([k for k in KEYS if k not in node] or KEYS)] = copy.deepcopy(v)
+
+
+def inject_alias(rng, pairs, env, roots=("inputs", "locals")):
+    """use ONE map-valued expression (=inputs.x …) at two or three places of an overlay/template document — the way
+    `spec.selector.matchLabels` and `spec.template.metadata.labels` are both `=inputs.labels`"""
+    cands = [(r, p) for r in roots if isinstance(env.get(r), dict) for p in map_paths(env[r])]
+    if not cands:
+        return
+    root, segs = rng.choice(cands)
+
+    def nodes(ps, acc):
+        acc.append(ps)
+        for _, d in ps:
+            if d[0] == "m" and d[1]:
+                nodes(d[1], acc)
+        return acc
+    for _ in range(rng.choice([2, 2, 3])):
+        node = rng.choice(nodes(pairs, []))
+        free = [k for k in KEYS if k not in {k0 for k0, _ in node} and k != "metadata"]
+        if free:
+            node.append([rng.choice(free), ["p", root, list(segs)]])
+
+
 def g_ov_case(rng, fx=False):
     env = g_env(rng, fx=fx)
     base = g_map(rng, rng.choice([1, 2, 3, 5]), KEYS, 4)
     if fx and rng.random() < 0.5:
         base["fx"] = g_fx(rng)
+    share = rng.random() < 0.5
+    if rng.random() < 0.3:
+        dup_submap(rng, base)
+        share = True
     spec = g_overlay(rng, base, {**env, "resource": base}, rng.choice([1, 2, 3, 4, 5]))
-    return {"kind": "ov", "base": base, "spec": spec, "env": env}
+    return {"kind": "ov", "base": base, "spec": spec, "env": env, "share": share}
 
 
 def g_nested(rng, depth, keys=KEYS):
@@ -1323,7 +1431,11 @@ def g_perturb(rng, res, depth):
 
 def g_deep_case(rng):
     res = g_nested(rng, rng.choice([1, 2, 3, 4])) if rng.random() < 0.7 else g_map(rng, 4, KEYS, 4)
-    return {"kind": "deep", "resource": res, "overlay": g_perturb(rng, res, 4)}
+    share = rng.random() < 0.5
+    if rng.random() < 0.3:
+        dup_submap(rng, res)
+        share = True
+    return {"kind": "deep", "resource": res, "overlay": g_perturb(rng, res, 4), "share": share}
 
 
 def g_svf(rng, outer_env_inputs, base):
@@ -1351,21 +1463,34 @@ def g_vf_case(rng, fx=False):
     vb = rng.choice([None, {}, "map", "map", "map"])
     if vb == "map":
         vb = g_map(rng, 3, KEYS, 4, 1)
+    share = rng.random() < 0.5
+    if vb and rng.random() < 0.3:
+        dup_submap(rng, vb)
+        share = True
     f = g_svf(rng, inputs, vb or {})
-    return {"kind": "vf", "f": f, "inputs": inputs, "value_base": vb}
+    if rng.random() < 0.2:
+        inject_alias(rng, f["return"], {"inputs": inputs}, roots=("inputs",))
+    return {"kind": "vf", "f": f, "inputs": inputs, "value_base": vb, "share": share}
 
 
 RF_KEYS = KEYS + ID_KEYS
 
 
-def g_rf_case(rng, fx=False):
+def g_rf_case(rng, fx=False, alias=False, ident=False):
+    """alias: one map-valued expression fills several paths of the template / an overlay / a ValueFunction return;
+    ident: a cached template that already carries the identity apiConfig computes, few overlays, owned"""
     env = g_env(rng, fx=fx)
     env["inputs"]["name"] = rng.choice(["n1", "obj-a"])
+    if alias:
+        env["inputs"]["m"] = g_nested(rng, 1)
     case = {"kind": "rf", "env": env, "name": rng.choice(["obj", "the-name"]),
-            "namespace": rng.choice(["ns1", "ns1", None]), "templates": {}, "owned": rng.random() < 0.5}
+            "namespace": rng.choice(["ns1"] * 5 + [None]) if ident else rng.choice(["ns1", "ns1", None]),
+            "templates": {}, "owned": rng.random() < (0.85 if ident else 0.5), "share": rng.random() < 0.5}
     r = rng.random()
-    if r < 0.55:
+    if r < (0.0 if ident else 0.8 if alias else 0.55):
         body = g_overlay(rng, {}, env, 3, RF_KEYS) if rng.random() < 0.9 else []
+        if alias and rng.random() < 0.7:
+            inject_alias(rng, body, env)
         case["template"] = ["inline", body]
         if rng.random() < 0.05:
             case["template_none"] = True
@@ -1379,6 +1504,8 @@ def g_rf_case(rng, fx=False):
         tb["kind"] = rng.choice([KIND, "Other"])
         if rng.random() < 0.5:
             tb["metadata"] = rng.choice([{"labels": {"a": "b"}, "name": "tmpl-name"}, {"annotations": {}}, "not-a-map"])
+        if ident and rng.random() < 0.75:
+            tb = ref_merge_val(tb, forced_of(case))       # the forced overlay finds nothing to change
         tname = rng.choice(["n1", "tmpl"])
         case["templates"] = {tname: tb}
         if rng.random() < 0.5:
@@ -1391,13 +1518,15 @@ def g_rf_case(rng, fx=False):
         base = tb
     cur = ref_merge_val(base if isinstance(base, dict) else {}, forced_of(case))
     steps = []
-    for _ in range(rng.choice([0, 1, 1, 2, 2, 3, 4])):
+    for _ in range(rng.choice([0, 0, 0, 1, 2] if ident else [1, 2, 2, 3] if alias else [0, 1, 1, 2, 2, 3, 4])):
         sk = rng.choice([None, None, None, ["c", True], ["c", False], ["p", "inputs", ["flag"]], ["c", 5]])
         if sk and sk[0] == "c" and sk[1] == 5 and rng.random() < 0.7:
             sk = None
         renv = {**env, "resource": cur}
         if rng.random() < 0.65:
             spec = g_overlay(rng, cur, renv, rng.choice([1, 2, 3, 4]), RF_KEYS)
+            if alias and rng.random() < 0.25:
+                inject_alias(rng, spec, env)
             steps.append({"kind": "inline", "spec": spec, "skip": sk})
             applied = lambda c, spec=spec: ref_merge(c, ["m", spec], {**env, "resource": c})
         else:
@@ -1412,6 +1541,8 @@ def g_rf_case(rng, fx=False):
             except RefUndefined:
                 vinv = {}
             f = g_svf(rng, vinv, cur)
+            if alias and rng.random() < 0.3:
+                inject_alias(rng, f["return"], {"inputs": vinv}, roots=("inputs",))
             # prepare demands that every inputs.X the function mentions is provided
             need = {d[2][0] for d in iter_paths(f) if d[1] == "inputs" and d[2]}
             have = {k for k, _ in vin}
@@ -1430,7 +1561,8 @@ def g_rf_case(rng, fx=False):
         except RefUndefined:
             pass
     case["steps"] = steps
-    case["create"] = g_overlay(rng, cur, {**env, "resource": cur}, 2, RF_KEYS) if rng.random() < 0.4 else []
+    case["create"] = (g_overlay(rng, cur, {**env, "resource": cur}, 2 if not alias else 3, RF_KEYS)
+                      if rng.random() < (0.15 if ident else 0.4) else [])
     return case
 
 
@@ -1524,6 +1656,12 @@ def gen_cases(ctx: Ctx):
         yield g_rf_case(ctx.rng)
     for _ in range(200 if q else 2500):
         yield g_flow_case(ctx.rng)
+    # alias stream: one computed map fills several paths, later overlays reach into one of them
+    for _ in range(400 if q else 5000):
+        yield g_rf_case(ctx.rng, alias=True)
+    # identity stream: cached templates on which the forced overlay is a no-op, few overlays, owned -> create path
+    for _ in range(200 if q else 2500):
+        yield g_rf_case(ctx.rng, ident=True)
     # function streams: leaves that call koreo's CEL extension functions on values taken from inputs/locals/resource
     for _ in range(500 if q else 6000):
         with fn_stream(0.45):
